@@ -1,6 +1,8 @@
 package core
 
 import (
+	"fmt"
+	"go/constant"
 	"go/token"
 	"sort"
 	"strings"
@@ -21,6 +23,31 @@ func (p *Prog) CanonAtom(v ssa.Value) (string, bool) {
 	d := func(x ssa.Value) string { return strings.Join(pv.Desc(x), "|") }
 	if b, ok := v.(*ssa.BinOp); ok {
 		x, y := d(b.X), d(b.Y)
+		// integer comparison with a constant: one normal form "(X < const(K))" so that
+		// x > 0, x >= 1, 0 < x and 1 <= x (and their negations) are the same atom
+		if k, ok := intConst(b.Y); ok {
+			switch b.Op {
+			case token.LSS:
+				return fmt.Sprintf("(%s < const(%d))", x, k), false
+			case token.GEQ:
+				return fmt.Sprintf("(%s < const(%d))", x, k), true
+			case token.LEQ:
+				return fmt.Sprintf("(%s < const(%d))", x, k+1), false
+			case token.GTR:
+				return fmt.Sprintf("(%s < const(%d))", x, k+1), true
+			}
+		} else if k, ok := intConst(b.X); ok {
+			switch b.Op {
+			case token.GTR: // K > y ≡ y < K
+				return fmt.Sprintf("(%s < const(%d))", y, k), false
+			case token.LEQ: // K <= y ≡ ¬(y < K)
+				return fmt.Sprintf("(%s < const(%d))", y, k), true
+			case token.GEQ: // K >= y ≡ y < K+1
+				return fmt.Sprintf("(%s < const(%d))", y, k+1), false
+			case token.LSS: // K < y ≡ ¬(y < K+1)
+				return fmt.Sprintf("(%s < const(%d))", y, k+1), true
+			}
+		}
 		switch b.Op {
 		case token.EQL, token.NEQ:
 			if x > y {
@@ -119,4 +146,15 @@ func matchFact(atom, fact string) bool {
 		s = s[k+len(parts[i]):]
 	}
 	return strings.HasSuffix(s, parts[len(parts)-1])
+}
+
+func intConst(v ssa.Value) (int64, bool) {
+	c, ok := v.(*ssa.Const)
+	if !ok || c.Value == nil || c.Value.Kind() != constant.Int {
+		return 0, false
+	}
+	if k, exact := constant.Int64Val(c.Value); exact && k < 1<<62 && k > -(1<<62) {
+		return k, true
+	}
+	return 0, false
 }
